@@ -261,6 +261,11 @@ type rtEvent struct {
 	Ext2C   []string `json:"ext2C"`
 	Ext2T   []string `json:"ext2T"`
 	List2   []string `json:"list2"`
+	Unz3Err string   `json:"unzipRecursiveErr"` // extraction with the default (recursive) limits: the trees hold no real archive
+	Ext3P   []string `json:"ext3P"`
+	Ext3C   []string `json:"ext3C"`
+	Ext3T   []string `json:"ext3T"`
+	List3   []string `json:"list3"`
 	ZvErr   string   `json:"zipViewErr"`
 	ZvC     []string `json:"zipViewC"`
 	ZvProb  []string `json:"zipViewProblems"`
@@ -424,6 +429,12 @@ func roundTrip(id int, backend, scratch string, nodes []tnode, ev rtEvent) (rtEv
 	ext2 := dump(base, dest2)
 	ev.Ext2P, ev.Ext2C, ev.Ext2T = proj(ext2, rec.pp), proj(ext2, rec.pc), proj(ext2, rec.ptm)
 	ev.List2, _ = relList(list2, dest2)
+	dest3 := filepath.Join(root, "ext3")
+	list3, err := fs.UnzipWithContextAndLimits(context.Background(), zipPath, dest3, filesystem.DefaultLimits())
+	ev.Unz3Err = hk.Kind(err)
+	ext3 := dump(base, dest3)
+	ev.Ext3P, ev.Ext3C, ev.Ext3T = proj(ext3, rec.pp), proj(ext3, rec.pc), proj(ext3, rec.ptm)
+	ev.List3, _ = relList(list3, dest3)
 	// read-only views
 	ev.ZvC, ev.ZvProb, ev.TvC, ev.TvProb = []string{}, []string{}, []string{}, []string{}
 	zv, zf, err := filesystem.NewZipFileSystem(fs, zipPath, filesystem.NoLimits())
